@@ -29,6 +29,10 @@ CLAIMED = {
    technique="stateless model checking of the implementation with exhaustive fault enumeration: frame-kind sequences x client abort at every byte offset x 3 ways of going away x reply-write failures, with a concurrent probe connection, under all schedules up to a delay bound at frame boundaries",
    text="For every sequence of <=2 (thorough <=3) frames over 20 frame kinds and an optional unterminated tail the client stops after every byte offset and half-closes, closes or aborts; additionally the n-th reply write fails. A probe connection performs three calls concurrently and a Shutdown follows. Oracle: no panic; the victim's replies and dispatch log equal (half-close) or are a prefix of (peer gone) the reference computed from the complete, well-shaped frames before the first offending one; the probe gets exactly its replies; afterwards no handler thread is left, the connection count is 0, every accepted connection was closed by the service and the serving call returns.",
    note="classifyCall restates 'of the call's shape'; vnet's abort/EPIPE semantics are assumed to match a kernel socket's; schedule deviations only at frame-boundary offsets (other offsets run the default schedule)."),
+ "C17": dict(engine=A, design="§3 C17",
+   technique="stateless model checking of the implementation: exhaustive delay-bounded DFS placing the cancellation / deadline expiry at every scheduling point of ctxio operation sequences against a controlled peer, with a byte-stream reference model",
+   text="Sequences of <=3 operations {ReadBytes, raw Read, Write} on the real ctxio.Conn over a controlled connection, the first 1-2 under a cancellable context (cancel, or deadline = context expiry and connection-deadline expiry in both orders), 3 segmentations of the peer's stream, draining and stalled peers, plus service handlers parked in their per-connection read when the serving context ends. All interleavings up to the delay bound, i.e. the cancellation at every instant relative to data arrival and to both select branches. Oracle: every operation returns (a thread parked forever is the violation); cancelled operations report a context/timeout error or their normal result; no helper goroutine is alive when an operation returns; an operation under a live context never fails with a timeout; delivered bytes are in order, unduplicated, and may be missing only if they had arrived before a cancelled operation returned; successful writes reach the peer in order; cancelled handlers end and close their connection.",
+   note="Decided on vnet's model of the documented net.Conn deadline semantics. Whether real transports (unix, tcp, net.Pipe, bridge PipeCon) honour those semantics is a separate conformance matrix (see DESIGN.md §C17); the armed-deadline clause is judged functionally (next operation must not time out)."),
 }
 
 NOT_YET = "check not built yet (work in progress; see DESIGN.md for the plan)"
